@@ -219,6 +219,9 @@ func (r *Runner) replayLine(l *Line) lineResult {
 	if r.cfg.Fam == "lift" && l.Fam == "core" {
 		return r.replayLift(l)
 	}
+	if r.cfg.Fam == "prefixroots" && l.Fam == "core" {
+		return r.replayPrefixRoots(l)
+	}
 	if r.cfg.Fam == "lift" && l.Fam == "light" {
 		return r.replayLiftLight(l)
 	}
@@ -339,7 +342,7 @@ func (r *Runner) writeReplay(prop string, f *Fail, l *Line) string {
 	h.Write([]byte(l.raw))
 	h.Write([]byte(f.Inst + f.Cat))
 	fam := l.Fam
-	if r.cfg.Fam == "sched" || r.cfg.Fam == "lockrun" || r.cfg.Fam == "lift" {
+	if r.cfg.Fam == "sched" || r.cfg.Fam == "lockrun" || r.cfg.Fam == "lift" || r.cfg.Fam == "prefixroots" {
 		fam = r.cfg.Fam
 	}
 	path := filepath.Join(r.cfg.OutDir, fmt.Sprintf("%s-%s-%016x.json", prop, fam, h.Sum64()))
